@@ -17,21 +17,23 @@ SCOPE = ("Modelled, not verified: parsing, HIR lowering (body.rs), salsa and the
 
 CHECKS = {
  "C09": dict(
-  technique="Lean 4 proofs: (1) the inference engine's union-find table is a correct partition structure (hook-tied model), (2) a checker of type assignments is sound for Gleam's typing rules of the core; the proved checker validates both the types glas displays and the generator's expected types on type-directed programs",
-  text=("Part 1 (Props/C09UF.lean over Model/UnionFind.lean, a transliteration of ty/union_find.rs): find_spec (find returns the root, only compresses paths), "
-        "unify_spec (afterwards a and b share the returned root; classes that were equal stay equal; nothing else is merged; the merged class keeps the left value and "
-        "the right value is handed back), push_spec, reachable_wf (every table the engine can reach is well formed: ranks increase towards roots, exactly roots carry "
-        "a value) and get_total (get_mut().unwrap() cannot fail, find terminates within maxRank+1 steps). Tie: random and adversarial operation scripts run on the real "
-        "UnionFind through the hook ide::verif_union_find_script and on the model; results and final tables must be identical. "
-        "Part 2 (Props/C09.lean over Model/TySpec.lean): HasType / PatOk state Gleam's typing rules for the supported core (literals, operators, tuples and indexing, "
-        "lists and spreads, Result/Bool/Nil, generic custom types, field access, labelled arguments in any order, lambdas, pipelines, case with several subjects, "
-        "polymorphic calls); checkFn_sound: for EVERY program, assignment and fuel, an assignment accepted by the checker types every function body under these rules "
-        "with exactly the assigned binder types and the source annotations. Per run a type-directed generator builds every expression against a chosen type (so each "
-        "binder's type is known by construction; items in random order, forward references, a recursion group, two modules, use, captures via lambdas), hover is "
-        "taken on every binder and function, compared with the expected type up to renaming of type variables, and BOTH assignments are validated by the proved "
-        "checker (the oracle itself is machine-validated; corrupted assignments are rejected). PARTIAL: infer.rs itself (unification over the table, instantiation, "
-        "SCC order) is exercised through hover, not modelled beyond its union-find; two genuine defects were found and repaired (fix: b8d04b5, 09a39df)."),
-  note=TB + "Modelled, not verified: Gleam's typing rules as stated in TySpec.lean (the specification); infer.rs beyond the union-find table; the s-expression parser of the driver and the generator are glue outside the proved part.", ref="5.C09, 4.4"),
+  technique="Lean 4 proofs: (1) the inference engine's union-find table is a correct partition structure (hook-tied model), (2) a checker of type assignments is sound for Gleam's typing rules of the core (certificate form of the property, C09_partial); a Lean transliteration of infer.rs (M-ty) is tied to the types glas displays, and the proved checker validates the model's, glas's and the generator's assignments on every generated program",
+  text=("Part 1 (Props/C09UF.lean over Model/UnionFind.lean, a transliteration of ty/union_find.rs): find_spec, unify_spec (afterwards a and b share the returned "
+        "root; equal classes stay equal; nothing else is merged; the merged class keeps the left value, the right one is handed back), push_spec, reachable_wf, "
+        "get_total (get_mut().unwrap() cannot fail; find terminates within maxRank+1 steps). Tie: operation scripts on the real UnionFind (hook "
+        "ide::verif_union_find_script) vs the model. Part 2 (Props/C09.lean): HasType / PatOk state Gleam's typing rules for the supported core (literals, "
+        "operators, tuples and indexing, lists and spreads, Result/Bool/Nil, generic custom types, field access, labelled arguments in any order, lambdas, pipelines, "
+        "case with several subjects, polymorphic calls); checkFn_sound: for EVERY program, assignment and fuel an assignment accepted by the checker types every "
+        "function body under these rules with exactly the assigned binder types and source annotations. Model/Infer.lean (M-ty) transliterates InferCtx: table of type "
+        "nodes, unify with label reordering, instantiation of annotations/schemes/constructors, expression/pattern/statement inference, group-wise inference, the "
+        "Collector. C09_full states the property for M-ty at full strength (not proved); C09_partial is its certificate form (proved): whenever the checker accepts "
+        "M-ty's assignment for a program, that assignment is a typing under Gleam's rules - and the driver evaluates the checker on M-ty's result for every generated "
+        "program. Per run: a type-directed generator builds every expression against a chosen type (binder types known by construction; random item order, forward "
+        "references, a recursion group, two modules, use, labelled calls in shuffled order); hover on every binder and function is compared with the expected type and "
+        "with M-ty's result (tie), up to renaming of type variables; expected, displayed and modelled assignments are all validated by the proved checker (corrupted "
+        "assignments are rejected). PARTIAL: soundness of unification-based inference itself is validated per program, not proved; two genuine defects were found and "
+        "repaired (fix: b8d04b5, 09a39df)."),
+  note=TB + "Modelled, not verified: Gleam's typing rules as stated in TySpec.lean (the specification); HIR lowering (body.rs) and name resolution are outside M-ty (the generator supplies resolved binder ids and the SCC grouping); the s-expression parser of the driver and the generator are glue outside the proved part.", ref="5.C09, 4.4"),
  "C16": dict(
   technique="Lean 4 deadlock-freedom / quiescence / store-stability proofs over a lock-choreography transition system whose programs are regenerated from server.rs and handler.rs + replay of the real server's lock traces on the model",
   text=("xlate extracts the sequence of lock operations of every main-loop method (document-store write guard, release, database write / "
